@@ -76,7 +76,11 @@ func strChar(L *LState) int {
 	top := L.GetTop()
 	bytes := make([]byte, L.GetTop())
 	for i := 1; i <= top; i++ {
-		bytes[i-1] = uint8(L.CheckInt(i))
+		c := L.CheckInt(i)
+		if c < 0 || c > 255 {
+			L.ArgError(i, "invalid value")
+		}
+		bytes[i-1] = uint8(c)
 	}
 	L.Push(LString(string(bytes)))
 	return 1
@@ -92,7 +96,7 @@ func strFind(L *LState) int {
 	pattern := L.CheckString(2)
 	init := luaIndex2StringIndex(str, L.OptInt(3, 1), true)
 	plain := len(pattern) == 0 // the empty pattern matches at init
-	if L.GetTop() == 4 {
+	if L.GetTop() >= 4 {
 		plain = plain || LVAsBool(L.Get(4))
 	}
 
@@ -146,6 +150,10 @@ func strGsub(L *LState) int {
 	L.CheckTypes(3, LTString, LTTable, LTFunction)
 	repl := L.CheckAny(3)
 	limit := L.OptInt(4, -1)
+	if limit < 0 && L.Get(4) != LNil {
+		// an explicit negative count allows no replacement; only the missing one is unlimited
+		limit = 0
+	}
 
 	mds, err := pm.Find(pat, unsafeFastStringToReadOnlyBytes(str), 0, limit)
 	if err != nil {
@@ -256,6 +264,9 @@ func strGsubTable(L *LState, str string, repl *LTable, matches []*pm.MatchData) 
 			value = L.GetField(repl, str[match.Capture(idx):match.Capture(idx+1)])
 		}
 		if !LVIsFalse(value) {
+			if !LVCanConvToString(value) {
+				L.RaiseError("invalid replacement value (a %s)", value.Type().String())
+			}
 			infoList = append(infoList, replaceInfo{[]int{match.Capture(0), match.Capture(1)}, LVAsString(value)})
 		}
 	}
@@ -284,6 +295,9 @@ func strGsubFunc(L *LState, str string, repl *LFunction, matches []*pm.MatchData
 		L.Call(nargs, 1)
 		ret := L.reg.Pop()
 		if !LVIsFalse(ret) {
+			if !LVCanConvToString(ret) {
+				L.RaiseError("invalid replacement value (a %s)", ret.Type().String())
+			}
 			infoList = append(infoList, replaceInfo{[]int{start, end}, LVAsString(ret)})
 		}
 	}
